@@ -248,7 +248,7 @@ def run(res):
 
     res.cov.setdefault('timing_s', []).append(round(time.time() - res.t0, 1))
     # ---- search seeded from disagreeing cases (only when the tie broke): neighbours of the disagreeing sequences
-    if badset or bad3 or bad_nt:
+    if badset or bad3:
         extra = []
         for i in list(badset)[:40]:
             s = seqs[i]
@@ -353,7 +353,34 @@ def near_tie_stage(res, seqs, outs, quick):
                                 expected_pass2_levels=hcm.steady_cycles(s))
             if new:
                 n_viol += 1
-    res.add_cases(len(cases), nontrivial=len(distinct))
+    n_extra = 0
+    if badset and n_viol == 0:
+        # the tie broke on float inputs but none of them violates the property: search the neighbourhood of the disagreeing inputs
+        # (sub-sequences forced into the class, other scales / perturbation modes)
+        extra = []
+        for i in list(badset)[:40]:
+            s = cases[i][0]
+            for _ in range(8):
+                t = hcm.make_in_class(rng, [x for x in s if rng.random() < 0.8] or s)
+                if t is None or len(set(t)) < 2:
+                    continue
+                c = rng.choice([cases[i][2], rng.choice(hcm.NT_SCALES)])
+                f = hcm.perturb(rng, t, c if max(abs(x) for x in t) * c <= 300 else 0.1, rng.choice(hcm.NT_MODES))
+                if f is not None:
+                    extra.append((t, f, c if max(abs(x) for x in t) * c <= 300 else 0.1))
+        n_extra = len(extra)
+        for (s, f, c), o in zip(extra, hcm.pmap(hcm._w_scaled, [(f, c) for _, f, c in extra])):
+            if o[0] != 'ok' or n_viol >= 3:
+                continue
+            why = hcm.c04_relation_nt(s, f, c, o[1][0])
+            if why:
+                s, f = shrink_nt(s, f, c)
+                rows = hcm.impl_run_scaled(f, c)[0]
+                if res.violation(WHAT, sequence=f, levels=s, scale=c, detail=hcm.c04_relation_nt(s, f, c, rows) or why, z=hcm.z_class(s), p=hcm.p_class(s),
+                                 model_agrees=False, observed_pass2=[(r['loads_min'], r['loads_max'], r['is_closed_hysteresis']) for r in rows if r['run_index'] == 2],
+                                 expected_pass2_levels=hcm.steady_cycles(s)):
+                    n_viol += 1
+    res.add_cases(len(cases) + n_extra, nontrivial=len(distinct))
     res.cov['near_tie_float_inputs'] = {'cases': len(cases), 'with_rounding_level_ties': n_near, 'in_class_distinct': len(distinct),
                                        'scale_budget_skips': skipped, 'correspondence_disagreements': len(bad)}
     for s, f, c in cases[len(NT_CORPUS):len(NT_CORPUS) + 2]:
